@@ -120,7 +120,8 @@ def run_check(pid, repo):
     env.pop('VERIF_TIER', None)
     r = subprocess.run([sys.executable, '-m', 'sa.main', pid, '--repo', repo,
                         '--tier', 'quick'],
-                       cwd=HERE, env=env, stdout=subprocess.PIPE,
+                       cwd=HERE, env=dict(env, VERIF_TIMEOUT='600'),
+                       stdout=subprocess.PIPE,
                        stderr=subprocess.STDOUT, universal_newlines=True)
     return r.returncode, r.stdout
 
